@@ -409,7 +409,9 @@ class FileDownloader(Resource, object):
 
                     # last-byte-pos
                     if last == '':
-                        last = filesize - 1
+                        # open-ended: never "inverted"; a start at or past
+                        # EOF must reach render() and be answered with 416
+                        last = max(first, filesize - 1)
                     else:
                         last = int(last)
 
